@@ -243,8 +243,13 @@ Definition ustep_core (orc : oracle) (w : uworld) (o : uop) (f : fctx) : uworld 
       let '(a', r) := a_kill true (uw_alloc w) es in
       let '(stores, f1) := purge_tbl_f (uw_stores w) (uw_table w) (map fst (killed_prefix es r)) f in
       (* .expect("Bug: previously collected entities are not valid ..") *)
-      let f2 := match r with None => f1 | Some _ => if f_pan f1 then f1 else f_fail f1 end in
-      (uw_with w a' stores, out_unless_panic f2 XUnit, f2)
+      let w1 := uw_with w a' stores in
+      ((match r with
+        | None => w1
+        | Some _ => if f_pan f1 then w1
+                    else {| uw_alloc := a'; uw_hs := uw_hs w; uw_hl := uw_hl w; uw_stores := stores;
+                            uw_table := uw_table w; uw_arm := uw_arm w; uw_stuck := true |}
+        end), out_unless_panic f1 XUnit, f1)
   | UEDelete h =>
       match uhget (uw_hs w) h with
       | Some e => let '(a', r) := a_kill_atomic (uw_alloc w) e in (uw_with w a' (uw_stores w), XKillDef r, f)
